@@ -35,6 +35,9 @@ Readings (the weaker one where the statement leaves a choice):
   to rename and is counted (`route_constructions_refused`).  Routes shared_block / shared_each hand
   the Term objects of the text (Equation.ParseString) to two equations of one block and rename through
   the block / equation after equation: both owners are judged, each must see the map applied once.
+  Routes cancel_first / cancel_mid build the equation with one AddTerm per additive term of the expression
+  around a cancelled term (AddTerm('m_x'), AddTerm('-m_x')); they apply when every term is a term an
+  Equation accepts and no two terms would be merged (else counted as refused / not applicable).
 * "name" is what the tokenizer calls NAME.  Names that Python's number constructors also accept as
   the text of a number (inf, nan, NaN, Infinity, INF, j) are names; they occur as the whole expression,
   signed, blank-padded, as keys and images of the map and as bystanders (instances MC_Tokens_words*).
@@ -212,9 +215,64 @@ def observe_rename(call, toks, mapping):
     return {'ok': ok, 'toks': got, 'text': text.replace('\n', '<NL>'), 'vok': vok, 'vals': vals}
 
 
-def observe_via(route, text, toks, lookup):
+CANCEL_NAME = 'm_x'          # Tokens!CancelName
+
+
+def additive_terms(toks):
+    """the token lists of the top-level additive terms of an expression (each with its sign), or None when
+    the expression has line tokens"""
+    terms, cur, depth, want = [], [], 0, True
+    for t in toks:
+        if t['kind'] in LINE_KINDS:
+            return None
+        if t['kind'] == 'OP' and depth == 0 and not want and t['text'] in ('+', '-'):
+            terms.append(cur)
+            cur = []
+        cur.append(t)
+        if t['kind'] == 'OP':
+            if t['text'] in ('(', '['):
+                depth += 1
+            elif t['text'] in (')', ']'):
+                depth -= 1
+            want = t['text'] not in (')', ']')
+        else:
+            want = False
+    terms.append(cur)
+    return terms
+
+
+def build_termwise(route, toks, sp):
+    """Equation built by AddTerm, one call per additive term (rendered in layout sp), holding a cancelled
+    term before (cancel_first) / after (cancel_mid) the first term.  None when the route does not apply:
+    a layout that does not apply to a term, two equal terms or a term spelled like the cancelled one
+    (AddTerm merges those, the stored names would not be the names of the expression)."""
+    from sfc_models.equation import Equation, Term
+    terms = additive_terms(toks)
+    if terms is None:
+        return None
+    texts = [render(t, sp) for t in terms]
+    if any(x is None for x in texts):
+        return None
+    bodies = [Term(x).Term for x in texts]
+    if len(set(bodies)) < len(bodies) or CANCEL_NAME in bodies:
+        return None
+    eq = Equation('lhs_', '')
+    cancel_at = 0 if route == 'cancel_first' else 1
+    for i, x in enumerate(texts):
+        if i == cancel_at:
+            eq.AddTerm(CANCEL_NAME)
+            eq.AddTerm('-' + CANCEL_NAME)
+        eq.AddTerm(x)
+    if cancel_at >= len(texts):
+        eq.AddTerm(CANCEL_NAME)
+        eq.AddTerm('-' + CANCEL_NAME)
+    return eq
+
+
+def observe_via(route, text, toks, lookup, sp='dense'):
     """rename through Equation / EquationBlock; observe the right-hand side(s) before and after.
-    Routes shared_*: the Term objects of the text are handed to two equations of one block."""
+    Routes shared_*: the Term objects of the text are handed to two equations of one block.
+    Routes cancel_*: the equation is built term by term and holds a cancelled term."""
     from sfc_models.equation import Equation, EquationBlock
     none = {'built': False, 'ok': False, 'pre': [], 'toks': [], 'text': '', 'vok': False, 'vals': [0, 0],
             'toks2': [], 'vok2': False, 'vals2': [0, 0]}
@@ -224,6 +282,11 @@ def observe_via(route, text, toks, lookup):
         if shared:
             terms = Equation.ParseString(text)
             eqs = [Equation('lhs_', '', rhs=terms), Equation('lhs2_', '', rhs=terms)]
+        elif route in ('cancel_first', 'cancel_mid'):
+            eq = build_termwise(route, toks, sp)
+            if eq is None:
+                return dict(none, text='NOT-APPLICABLE')
+            eqs = [eq]
         else:
             eqs = [Equation('lhs_', '', rhs=text)]
         for eq in eqs:
@@ -235,7 +298,7 @@ def observe_via(route, text, toks, lookup):
     except Exception as e:       # the Equation refuses this text: nothing to rename
         return dict(none, text='REFUSED ' + type(e).__name__)
     try:
-        if route in ('block', 'shared_block'):
+        if route in ('block', 'shared_block', 'cancel_first'):
             blk.ReplaceTokensFromLookup(dict(lookup))
         else:
             for eq in eqs:
@@ -278,7 +341,7 @@ def execute(beh):
                 for p in act['map']:
                     lookup[p['from']] = p['to']
                 ev = {'ev': 'RenameVia', 'route': act['route'], 'map': act['map'], 'sp': sp}
-                ev.update(observe_via(act['route'], text, toks, lookup))
+                ev.update(observe_via(act['route'], text, toks, lookup, sp))
             elif act['kind'] == 'RenameOne':
                 ev = {'ev': 'RenameOne', 'target': act['target'], 'repl': act['repl'], 'sp': sp}
                 ev.update(observe_rename(lambda: replace_token(text, act['target'], act['repl']), toks,
@@ -341,7 +404,9 @@ def signature(clause, beh, events):
         fn = 'replace_token_from_lookup' if act['kind'] == 'Rename' else \
             {'equation': 'Equation.ReplaceTokensFromLookup', 'block': 'EquationBlock.ReplaceTokensFromLookup',
              'shared_block': 'EquationBlock.ReplaceTokensFromLookup:shared-terms',
-             'shared_each': 'Equation.ReplaceTokensFromLookup:shared-terms'}.get(
+             'shared_each': 'Equation.ReplaceTokensFromLookup:shared-terms',
+             'cancel_first': 'EquationBlock.ReplaceTokensFromLookup:after-cancelled-term',
+             'cancel_mid': 'Equation.ReplaceTokensFromLookup:after-cancelled-term'}.get(
                 act.get('route'), 'via-' + str(act.get('route')))
         if act['kind'] == 'RenameVia':
             toks = ev.get('pre') or toks          # the stored form is what the call had to rename
